@@ -291,6 +291,13 @@ func (e *Engine) lockIntrinsic(st *State, fr *Frame, x *ssa.Call, name string, a
 		ord = e.ordinal(x)
 		pos = x.Pos()
 	}
+	// acquire/release are visible in the call log (callSeq(mutexLock, n) / callSeq(mutexUnlock, n)), so that a
+	// contract can say that a call happens inside the critical section
+	if op == "W" || op == "R" {
+		st.calls = append(st.calls, callRec{target: "mutexLock", args: []Val{args[0]}, seq: len(st.calls)})
+	} else {
+		st.calls = append(st.calls, callRec{target: "mutexUnlock", args: []Val{args[0]}, seq: len(st.calls)})
+	}
 	switch op {
 	case "W", "R":
 		e.oblige(st, "lockset@acquire", "", ord, BoolT(st.locks[mk] == ""), "mutex is not already held by this call (self-deadlock)", pos)
